@@ -202,3 +202,18 @@ func VH_C18_FilterValues() {
 	symAssert(err == nil, "renders")
 	symAssert(out == want+"|"+want, "filter-result-not-changed-by-later-filters")
 }
+
+// VH_C18_MapValues: map- and typed-slice-valued filter results are not changed by later filters
+// (merge into a merged map, keys of it reversed/sorted, slice of a typed slice merged and reversed).
+func VH_C18_MapValues() {
+	ctx := vhC18Ctx()
+	a, b := ctx["x"].(string), ctx["ss"].([]string)[0]
+	out, err := vhR("{% set m2 = m|merge({'z': x}) %}{% set k1 = m2|keys|join(',') %}{% set v1 = m2.a ~ m2.b ~ m2.z %}"+
+		"{% set m3 = m2|merge({'a': 'OVER', 'x': 1}) %}{% set ks = m2|keys %}{% set kr = ks|reverse %}{% set kq = ks|merge(['q'])|sort %}"+
+		"{{ k1 }}|{{ m2|keys|join(',') }}|{{ ks|join(',') }}|{{ v1 }}|{{ m2.a ~ m2.b ~ m2.z }}|{{ m2|length }}{{ m3|length }}{{ m|length }}|"+
+		"{% set p = ss|slice(0, 2) %}{% set p1 = p|join(',') %}{% set pq = p|merge(['N']) %}{% set pr = p|reverse %}{% set w = ss|reverse %}{{ p1 }}|{{ p|join(',') }}|{{ ss|join(',') }}", ctx)
+	symCover("rendered")
+	symAssert(err == nil, "renders")
+	vals := a + b + a
+	symAssert(out == "a,b,k,z|a,b,k,z|a,b,k,z|"+vals+"|"+vals+"|453|"+b+","+a+"|"+b+","+a+"|"+b+","+a, "map-and-typed-slice-filter-results-not-changed-by-later-filters")
+}
